@@ -77,7 +77,7 @@ pub fn c12(j: &mut Judge, v: &StepView) {
     // relational: the rate in force when an ask was placed is the one charged when it trades
     if let Req::Match { ask_id, .. } = v.req {
         if v.out.accepted() {
-            if let (Some(t), Some(c)) = (j.tracker.asks.get(ask_id), &v.before.cfg) {
+            if let (Some(t), Some(c)) = (j.tracker.asks.get(ask_id).cloned(), &v.before.cfg) {
                 if let (Some(r0), Some(r1)) = (&t.created_rate, model::rate_num(&c.ask_fee)) {
                     if !r0.eq_num(&r1) {
                         let (a, b) = (r0.to_plain_string(), r1.to_plain_string());
@@ -88,13 +88,30 @@ pub fn c12(j: &mut Judge, v: &StepView) {
                             format!("ask {} was placed under ask rate {} and traded under {}", ask_id, a, b),
                         );
                     }
-                    if v.exp.verdict == Verdict::Accept && super::matching_alt(v).is_none() {
-                        j.violate(
-                            Prop::C12,
-                            "fee-charged-differs-from-placed-rate",
-                            "execute",
-                            format!("match of ask {} did not charge the placed rate: {}", ask_id, super::describe_mismatch(v)),
-                        );
+                    // the fee actually charged, read off the flows when the ask-fee account is no
+                    // other party of the match
+                    if let (Verdict::Accept, Some(f)) = (&v.exp.verdict, &v.exp.match_facts) {
+                        if let Some(acc) = &f.ask_fee_account {
+                            let others = [Some(&f.buyer), Some(&f.seller_side), f.bid_fee_account.as_ref()];
+                            if !others.iter().any(|o| *o == Some(acc)) {
+                                if let Some(b) = v.before.bids.get(match v.req { Req::Match { bid_id, .. } => bid_id, _ => unreachable!() }) {
+                                    let want = r0.mul_u128(f.gross).round_half_away();
+                                    let real = crate::model::flows_of_moves(&v.out.moves);
+                                    let got = real
+                                        .get(&(acc.clone(), b.quote_denom.clone()))
+                                        .map(|x| x.to_string())
+                                        .unwrap_or_else(|| "0".to_string());
+                                    if want.map(|w| w.to_string()) != Some(got.clone()) {
+                                        j.violate(
+                                            Prop::C12,
+                                            "fee-charged-differs-from-placed-rate",
+                                            "execute",
+                                            format!("match of ask {} charged {} where the rate in force at placement gives {:?}", ask_id, got, want),
+                                        );
+                                    }
+                                }
+                            }
+                        }
                     }
                     if j.tracker.modifies_accepted > 0 {
                         j.label("match-after-config-change");
